@@ -103,6 +103,12 @@ class ExecBase:
         v = from_smt(ty, term)
         if ty.kind in ('list', 'dict', 'set'):
             v.loc = ('field', name, ref)
+        if ty.kind == 'dict' and self.C is not None and name in self.C.wf_fields and not getattr(self, 'spec_locals', None):
+            memo = self.st.flags.setdefault('wf_assumed', {})
+            k = term.get_id()
+            if not (k in memo and memo[k].eq(term)):
+                memo[k] = term
+                self.assume(self.dict_wf(v))
         if not self.spec_mode:
             self.assume_type(v)
         elif ty.kind == 'list':
